@@ -409,6 +409,12 @@ func writeElementToken(encoder *xml.Encoder, elem xsel.Cursor) error {
 		},
 	}
 
+	if parent, ok := elem.Parent().Node().(xsel.Element); ok && n.Space() == "" && parent.Space() != "" {
+		// The parent's start tag declares a default namespace, which this
+		// element is not in.
+		t.Attr = append(t.Attr, xml.Attr{Name: xml.Name{Local: "xmlns"}})
+	}
+
 	for _, i := range elem.Attributes() {
 		attr := i.Node().(xsel.Attribute)
 		attrTok := xml.Attr{
